@@ -11,13 +11,15 @@ def jobs(tier):
   q = tier == "quick"
   t = 600 if q else 3000
   out = [
-      Job("plan-n3", M, "h_plan", dict(C19_N=3, C19_NKINDS=5), shards=31, timeout=t, env=RE),
+      Job("plan-n3", M, "h_plan", dict(C19_N=3, C19_NKINDS=6), shards=61, timeout=t, env=RE),
+      Job("plan-n5-dag", M, "h_plan", dict(C19_N=5, C19_DAG=1, C19_ALL_DIRECT=1), shards=31, timeout=t, env=RE,
+          note="five requested modules, every acyclic import structure"),
       Job("escape-model-validation", M, "h_escape_model", {}, shards=1, timeout=t),
       Job("escape", M, "h_escape", dict(C19_STRLEN=4 if q else 6), shards=16 if q else 61, timeout=t),
       Job("imports-line", M, "h_imports_line", dict(C19_ILEN=3 if q else 5), shards=1, timeout=t),
   ]
   if not q:
-    out.append(Job("plan-n4", M, "h_plan", dict(C19_N=4, C19_NKINDS=3), shards=127, timeout=t, env=RE))
+    out.append(Job("plan-n4", M, "h_plan", dict(C19_N=4, C19_NKINDS=2), shards=251, timeout=t, env=RE))
   return out
 
 
@@ -28,7 +30,7 @@ def meta(tier):
   return {
       "explanation": (
           "plan-*: a symbolic import graph (adjacency bits; module kind per node among Direct "
-          "(=requested), Local, Builtin, System, System named pytype_extensions.*) goes through a real "
+          "(=requested), Local, Builtin, System, System named pytype_extensions.*, local type stub .pyi) goes through a real "
           "importlab DependencyGraph (SCC collapse, untraced third-party code), the real "
           "deps_from_import_graph and PytypeRunner.setup_build with open/makedirs replaced by an "
           "in-memory file table; build.ninja and the .imports files are parsed back with an independent "
